@@ -13,7 +13,7 @@ RULE = ('alphabet A={a,A,b,1,-,_,e-acute,E-acute}; X in A^<=n as a literal '
         'of <=m names from A^<=2, plus no roles entry and an empty list; every '
         'combination enumerated; the check is decided alone and inside '
         'not/and contexts through Enforcer.enforce and compared with the '
-        'reference membership model. case = (X form, target, role list); '
+        'reference membership model; plus every sequence of <=3 in-place edits (append/remove/clear) of ONE roles list object with role checks decided after each edit. case = (X form, target, role list); '
         'non-trivial = non-empty X and non-empty role list.')
 ASSUMPTIONS = ['alphabet restricted to characters with one-to-one case maps '
                '(as the property states)']
@@ -56,6 +56,7 @@ def plan(tier, seed):
     for lo, hi in core.chunks(len(tv) + 1, 16):
         jobs.append({'space': 'placeholder2', 'lo': lo, 'hi': hi,
                      'tier': tier, 'weight': (hi - lo) * 6})
+    jobs.append({'space': 'mutate', 'tier': tier, 'weight': 50})
     if b.get('lists3'):
         for lo, hi in core.chunks(len(words(2)), 32):
             jobs.append({'space': 'lists3', 'lo': lo, 'hi': hi, 'tier': tier,
@@ -143,6 +144,8 @@ def run(job, seed):
                     _check(acc, enf, space, CONTEXTS[:1], target, rl, exp,
                            {'x': form, 'target': target, 'roles': rl})
         acc.sample(space, {'x': form, 'target': target, 'roles': rl})
+    elif space == 'mutate':
+        run_mutate(acc, enf, 3 if job['tier'] == 'quick' else 4)
     elif space == 'lists3':
         names1 = words(1)
         lists = [list(p) for p in itertools.product(names1, repeat=3)]
@@ -155,6 +158,51 @@ def run(job, seed):
                        {'x': x, 'roles': rl})
         acc.sample(space, {'x': x, 'roles': rl})
     return acc.result()
+
+
+def run_mutate(acc, enf, depth):
+    """The credentials of one caller change between calls: the SAME roles
+    list object is edited in place (append / remove / clear), and role checks
+    are decided after every edit.  All edit sequences up to `depth`."""
+    names = ['a', 'B', 'é']
+    ops = [('append', n) for n in names] + [('remove', n) for n in names] + \
+        [('clear', None)]
+    _set(enf, 'A')
+    world.set_rules(enf, {'pa': 'role:A', 'pb': 'role:b', 'pe': 'role:É',
+                          'pk': 'role:%(k)s', 'na': 'not role:a'})
+    for n in range(1, depth + 1):
+        for seq in itertools.product(ops, repeat=n):
+            roles = []
+            creds = {'roles': roles, 'user_id': 'u'}
+            acc.case('mutate', n >= 2)
+            for step, (op, x) in enumerate(seq):
+                if op == 'append':
+                    roles.append(x)
+                elif op == 'remove':
+                    if x in roles:
+                        roles.remove(x)
+                else:
+                    del roles[:]
+                for rule, match, target, neg in (
+                        ('pa', 'A', {}, False), ('pb', 'b', {}, False),
+                        ('pe', 'É', {}, False), ('pk', '%(k)s', {'k': 'B'},
+                                                 False),
+                        ('na', 'a', {}, True)):
+                    exp = rleaf.role_allows(match, target, creds) != neg
+                    acc.ev()
+                    got = world.decide(enf, rule, target, creds)
+                    if got != ('ok', exp):
+                        acc.violation(
+                            'mutate|%s|%s' % (rule, 'allows' if got ==
+                                              ('ok', True) else 'denies'),
+                            'after editing the caller\'s roles list in place '
+                            '(%r) role check %s decides %r, roles are now %r'
+                            % (seq[:step + 1], rule, got, roles),
+                            {'x': match, 'edits': [list(o) for o in
+                                                   seq[:step + 1]],
+                             'roles': list(roles)}, exp, got, 'mutate')
+            acc.outcome('mutate-%d' % len(roles))
+    acc.sample('mutate', {'edits': [list(o) for o in seq]})
 
 
 def replay(doc):
